@@ -214,6 +214,15 @@ example : PlaceholdersDeclared (newInitial f3Items) (fieldValuesOf good f3Cols f
 parameter order as repaired by fix a581476 (that flag is probed on every run, see tools/vlib/props/c02.py) -/
 def current : CopyCfg := ⟨true, DEvo.Generated.copyEmbedCoalesces, DEvo.Generated.copyFlagPerItem⟩
 
+/-- what the model takes for granted about the copy, checked against the source on every run: an initial value is
+registered for the copy exactly when one was given (`is not None` - a falsy value such as 0, False or the empty
+string is a value), and an existing column is told from a new one by looking the COLUMN up among the columns that
+are copied (`field_values`, keyed by column) -/
+theorem C02_source_copy_guards :
+    DEvo.Generated.copyRegisterGuards = ["initial is not None"] ∧
+    DEvo.Generated.copyLoopGuard = "initial is not None" ∧
+    DEvo.Generated.copyCoalesceTests = ["column in field_values"] := by decide
+
 /-- the embed-or-bind decision is taken per initial value in the current source -/
 theorem C02_source_flag_per_item : DEvo.Generated.copyFlagPerItem = true := by decide
 
